@@ -99,6 +99,9 @@ def check(model, R, tier):
                               'interprocedural through repo callees)', floor=95)
     pure_scan(model, R, 'C11.KERNEL-PURE', kfuncs)
     check_result_fresh(model, R)
+    from sa import rules_hygiene as _H
+    _H.check_global_state(model, R, 'C11')
+    _H.check_memo(model, R, 'C11')
     R.analysed['kernels'] = len(kfuncs)
     # positive control: the rule must fire on a fixture with an in-place update of a parameter and of a view of a parameter
     fx = model.add_fixture_module('synapgrad._fixture_c11', FIXTURE)
